@@ -80,10 +80,12 @@ def call_args(args, view):
 
 def call_source(c):
     """Rust statement(s) for one call."""
-    path = ".".join(c["path"])
     flav = c["flav"]
-    loc = rust_locale(c["locale"])
     i = c["id"]
+    if flav == "raw":
+        return "    emit(%d, || { %s });" % (i, c["rust"])
+    path = ".".join(c["path"])
+    loc = rust_locale(c["locale"])
     if flav in ("td_string", "td_display"):
         return "    emit(%d, || %s!(%s, %s%s).to_string());" % (i, flav, loc, path, call_args(c["args"], False))
     if flav == "td":
@@ -106,7 +108,7 @@ def main_source(project):
     lines.append(project.get("extra_items", ""))
     lines.append("fn main() {\n    std::panic::set_hook(Box::new(|_| {}));\n")
     if project.get("needs_ctx"):
-        lines.append("    let owner = Owner::new();\n    owner.set();\n"
+        lines.append("    let _ = any_spawner::Executor::init_futures_executor();\n    let owner = Owner::new();\n    owner.set();\n"
                      "    let opts = leptos_i18n::context::I18nContextOptions::<Locale>::default().enable_cookie(false)"
                      ".ssr_lang_header_getter(leptos_i18n::context::UseLocalesOptions::default().ssr_lang_header_getter(|| None));\n"
                      "    let ctx = leptos_i18n::context::init_i18n_context_with_options::<Locale>(opts);\n    CTX.with(|c| c.set(Some(ctx)));\n")
@@ -124,7 +126,8 @@ def main_source(project):
 def cargo_toml(name, cfg):
     return ('[package]\nname = "%s"\nversion = "0.0.0"\nedition = "2021"\n\n[dependencies]\n'
             'leptos = { version = "0.7.7", features = ["ssr"] }\n'
-            'leptos_i18n = { path = "%s/leptos_i18n", default-features = false, features = [%s] }\n\n' % (name, vp.REPO, ", ".join(FEATURES))
+            'leptos_i18n = { path = "%s/leptos_i18n", default-features = false, features = [%s] }\n'
+            'any_spawner = { version = "0.2", features = ["futures-executor"] }\n\n' % (name, vp.REPO, ", ".join(FEATURES))
             ) + "[package.metadata.leptos-i18n]" + vp.manifest_text(cfg).split("[package.metadata.leptos-i18n]")[1]
 
 
